@@ -55,11 +55,11 @@ theorem evalBool_pyBool (b : Bool) : evalBool (pyBool b) = some b := by cases b 
 
 theorem kwOpt_str (items : List Item) (n : String) (v : Option Str) (h : kwArg (S n) items = v.map .str) :
     kwOpt items n evalStr = some v := by
-  cases v <;> simp_all [kwOpt, evalStr]
+  cases v <;> simp_all [kwOpt, kwOptV, evalStr]
 
 theorem kwOpt_bool (items : List Item) (n : String) (v : Option Bool) (h : kwArg (S n) items = v.map pyBool) :
     kwOpt items n evalBool = some v := by
-  cases v <;> simp_all [kwOpt, evalBool_pyBool]
+  cases v <;> simp_all [kwOpt, kwOptV, evalBool_pyBool]
 
 @[simp] theorem posArgs_kwItems (l : Kw) : posArgs (kwItems l) = [] := by
   induction l with
@@ -92,19 +92,25 @@ theorem evalGenName_genName (c : Ctx) (n : GenName) : evalGenName c (genName c n
   | conv s => simp [genName, evalGenName, pos]
 
 
-theorem kwFresh_sub (kn kn' : List Str) (l : Kw) (h : ∀ k, kn'.contains k = true → kn.contains k = true)
+theorem kwFresh_sub (kn kn' : List Str) (l : Kw) (h : kn'.all (fun k => kn.contains k) = true)
     (hf : kwFresh kn l = true) : kwFresh kn' l = true := by
-  simp only [kwFresh, List.all_eq_true, Bool.not_eq_true'] at hf ⊢
+  simp only [kwFresh, List.all_eq_true, Bool.not_eq_true'] at hf h ⊢
   intro p hp
   cases hc : kn'.contains p.1 with
   | false => rfl
-  | true => have := h _ hc; have := hf p hp; simp_all
+  | true =>
+    have h1 : p.1 ∈ kn' := by simpa using hc
+    have := h _ h1
+    have := hf p hp
+    simp_all
 
 theorem evalStrList_strList (l : List Str) : evalStrList (strList l) = some l := by
   simp only [strList, evalStrList]
   induction l with
   | nil => rfl
-  | cons s l ih => simp [List.mapM_cons, pos, ih]
+  | cons s l ih =>
+    simp [pos] at ih
+    simp [pos, ih]
 
 theorem evalIdxElems_ok (elems : List IdxElem)
     (h : elems.all (fun e => match e with | .col _ => true | .expr e => notStr e) = true) :
@@ -139,14 +145,14 @@ theorem dir_dropTableComment : directiveOf (S "drop_table_comment") = some .drop
 theorem eval_dropTable (ec : ECtx) (name : Str) (schema : Option Str) (ie : Option Bool) :
     evalCall ec (renderOp ec.c (.dropTable name schema ie)) = some (normalize ec (.dropTable name schema ie)) := by
   simp only [renderOp, normalize, evalCall, stripPrefix_append, dir_dropTable]
-  simp +decide [evalDropTable, kwOpt, posArgs_append, posArgs, kwArg_append, kwArg, kwArg_optItem, pos, schemaKw]
+  simp +decide [evalDropTable, kwOpt, kwOptV, posArgs_append, posArgs, kwArg_append, kwArg, kwArg_optItem, pos, schemaKw]
   cases truthy schema <;> cases ie <;> simp [evalStr, evalBool_pyBool]
 
 theorem eval_dropColumn (ec : ECtx) (table : Str) (schema : Option Str) (col : Str) :
     evalCall ec (renderOp ec.c (.dropColumn table schema col)) = some (normalize ec (.dropColumn table schema col)) := by
   simp only [renderOp, normalize]
   cases hb : ec.c.batch <;> simp only [↓reduceIte, Bool.false_eq_true, evalCall, stripPrefix_append, dir_dropColumn]
-  · simp +decide [evalDropColumn, hb, kwOpt, posArgs_append, posArgs, kwArg_append, kwArg, kwArg_optItem, pos, schemaKw]
+  · simp +decide [evalDropColumn, hb, kwOpt, kwOptV, posArgs_append, posArgs, kwArg_append, kwArg, kwArg_optItem, pos, schemaKw]
     cases truthy schema <;> simp [evalStr]
   · simp [evalDropColumn, hb, posArgs, pos]
 
@@ -155,10 +161,10 @@ theorem eval_dropConstraint (ec : ECtx) (name : GenName) (table : Str) (schema t
       some (normalize ec (.dropConstraint name table schema type_)) := by
   simp only [renderOp, normalize]
   cases hb : ec.c.batch <;> simp only [↓reduceIte, Bool.false_eq_true, evalCall, stripPrefix_append, dir_dropConstraint]
-  · simp +decide [evalDropConstraint, hb, kwOpt, posArgs_append, posArgs, kwArg_append, kwArg, kwArg_optItem, pos, schemaKw,
+  · simp +decide [evalDropConstraint, hb, kwOpt, kwOptV, posArgs_append, posArgs, kwArg_append, kwArg, kwArg_optItem, pos, schemaKw,
       evalGenName_genName]
     cases truthy schema <;> cases truthy type_ <;> simp [evalStr]
-  · simp +decide [evalDropConstraint, hb, kwOpt, posArgs_append, posArgs, kwArg_append, kwArg, kwArg_optItem, pos,
+  · simp +decide [evalDropConstraint, hb, kwOpt, kwOptV, posArgs_append, posArgs, kwArg_append, kwArg, kwArg_optItem, pos,
       evalGenName_genName]
     cases truthy type_ <;> simp [evalStr]
 
@@ -170,10 +176,10 @@ theorem eval_dropIndex (ec : ECtx) (name : GenName) (table : Str) (schema : Opti
   have hk' := fun n hn => kwArg_kwItems n kws _ hf' hn
   simp only [renderOp, normalize]
   cases hb : ec.c.batch <;> simp only [↓reduceIte, Bool.false_eq_true, evalCall, stripPrefix_append, dir_dropIndex]
-  · simp +decide [evalDropIndex, hb, kwOpt, posArgs_append, posArgs, kwArg_append, kwArg, kwArg_optItem, pos, kw, schemaKw,
+  · simp +decide [evalDropIndex, hb, kwOpt, kwOptV, posArgs_append, posArgs, kwArg_append, kwArg, kwArg_optItem, pos, kw, schemaKw,
       evalGenName_genName, otherKw_append, otherKw, otherKw_optItem, otherKw_kwItems _ _ hf, hk, evalStr]
     cases truthy schema <;> cases ie <;> simp [evalBool_pyBool]
-  · simp +decide [evalDropIndex, hb, kwOpt, posArgs_append, posArgs, kwArg_append, kwArg, kwArg_optItem, pos,
+  · simp +decide [evalDropIndex, hb, kwOpt, kwOptV, posArgs_append, posArgs, kwArg_append, kwArg, kwArg_optItem, pos,
       evalGenName_genName, otherKw_append, otherKw, otherKw_optItem, otherKw_kwItems _ _ hf', hk']
     cases ie <;> simp [evalBool_pyBool]
 
@@ -188,11 +194,11 @@ theorem eval_createIndex (ec : ECtx) (name : GenName) (table : Str) (schema : Op
   have hk' := fun n hn => kwArg_kwItems n kws _ hf' hn
   simp only [renderOp, normalize]
   cases hb : ec.c.batch <;> simp only [↓reduceIte, Bool.false_eq_true, evalCall, stripPrefix_append, dir_createIndex]
-  · simp +decide [evalCreateIndex, hb, kwOpt, posArgs_append, posArgs, kwArg_append, kwArg, kwArg_optItem, pos, kw, schemaKw,
+  · simp +decide [evalCreateIndex, hb, kwOpt, kwOptV, posArgs_append, posArgs, kwArg_append, kwArg, kwArg_optItem, pos, kw, schemaKw,
       evalGenName_genName, otherKw_append, otherKw, otherKw_optItem, otherKw_kwItems _ _ hf, hk, evalBool_pyBool,
       evalIdxElems_ok elems he]
     cases truthy schema <;> cases ine <;> simp [evalStr, evalBool_pyBool]
-  · simp +decide [evalCreateIndex, hb, kwOpt, posArgs_append, posArgs, kwArg_append, kwArg, kwArg_optItem, pos, kw,
+  · simp +decide [evalCreateIndex, hb, kwOpt, kwOptV, posArgs_append, posArgs, kwArg_append, kwArg, kwArg_optItem, pos, kw,
       evalGenName_genName, otherKw_append, otherKw, otherKw_optItem, otherKw_kwItems _ _ hf', hk', evalBool_pyBool,
       evalIdxElems_ok elems he]
     cases ine <;> simp [evalBool_pyBool]
@@ -206,12 +212,12 @@ theorem eval_createUnique (ec : ECtx) (name : GenName) (table : Str) (schema : O
   have hk' := fun n hn => kwArg_kwItems n kws _ hf' hn
   simp only [renderOp, normalize]
   cases hb : ec.c.batch <;> simp only [↓reduceIte, Bool.false_eq_true, evalCall, stripPrefix_append, dir_createUnique]
-  · simp +decide [evalCreateUnique, hb, kwOpt, posArgs_append, posArgs, kwArg_append, kwArg, kwArg_optItem, pos, schemaKw,
+  · simp +decide [evalCreateUnique, hb, kwOpt, kwOptV, posArgs_append, posArgs, kwArg_append, kwArg, kwArg_optItem, pos, schemaKw,
       evalGenName_genName, otherKw_append, otherKw, otherKw_optItem, otherKw_kwItems _ _ hf, hk, evalStrList_strList]
     cases truthy schema <;> cases d <;> cases i <;> simp [evalStr]
-  · simp +decide [evalCreateUnique, hb, kwOpt, posArgs_append, posArgs, kwArg_append, kwArg, kwArg_optItem, pos,
+  · simp +decide [evalCreateUnique, hb, kwOpt, kwOptV, posArgs_append, posArgs, kwArg_append, kwArg, kwArg_optItem, pos,
       evalGenName_genName, otherKw_append, otherKw, otherKw_optItem, otherKw_kwItems _ _ hf', hk', evalStrList_strList]
-    cases d <;> cases i <;> simp
+    try (cases d <;> cases i <;> simp)
 
 theorem eval_createFK (ec : ECtx) (name : GenName) (source referent : Str) (l r : List Str) (k : FKKw) :
     evalCall ec (renderOp ec.c (.createFK name source referent l r k)) =
@@ -221,10 +227,10 @@ theorem eval_createFK (ec : ECtx) (name : GenName) (source referent : Str) (l r 
   cases hb : ec.c.batch <;> simp only [↓reduceIte, Bool.false_eq_true, evalCall, stripPrefix_append, dir_createFK]
   · simp +decide [evalCreateFK, evalFKKw, hb, posArgs_append, posArgs, kwArg_append, kwArg, kwArg_optItem, pos,
       evalGenName_genName, evalStrList_strList]
-    cases k1 <;> cases k2 <;> cases k3 <;> cases k4 <;> cases k5 <;> cases k6 <;> cases k7 <;> cases k8 <;> simp
+    try (cases k1 <;> cases k2 <;> cases k3 <;> cases k4 <;> cases k5 <;> cases k6 <;> cases k7 <;> cases k8 <;> simp)
   · simp +decide [evalCreateFK, evalFKKw, hb, posArgs_append, posArgs, kwArg_append, kwArg, kwArg_optItem, pos,
       evalGenName_genName, evalStrList_strList]
-    cases k2 <;> cases k3 <;> cases k4 <;> cases k5 <;> cases k6 <;> cases k7 <;> cases k8 <;> simp
+    try (cases k2 <;> cases k3 <;> cases k4 <;> cases k5 <;> cases k6 <;> cases k7 <;> cases k8 <;> simp)
 
 theorem eval_createTableComment (ec : ECtx) (table : Str) (comment existing schema : Option Str) :
     evalCall ec (renderOp ec.c (.createTableComment table comment existing schema)) =
@@ -241,5 +247,77 @@ theorem eval_dropTableComment (ec : ECtx) (table : Str) (existing schema : Optio
   cases hb : ec.c.batch <;> simp only [↓reduceIte, Bool.false_eq_true, evalCall, stripPrefix_append, dir_dropTableComment]
   · simp +decide [evalDropTableComment, hb, posArgs, kwArg, pos, kw, evalOptStr_optStr]
   · simp +decide [evalDropTableComment, hb, posArgs, kwArg, pos, kw, evalOptStr_optStr]
+
+
+@[simp] theorem kwOptV_none {α : Type} (f : PyAst → Option α) : kwOptV none f = some none := rfl
+@[simp] theorem kwOptV_str (v : Option Str) : kwOptV (v.map PyAst.str) evalStr = some v := by
+  cases v <;> simp [kwOptV, evalStr]
+@[simp] theorem kwOptV_bool (v : Option Bool) : kwOptV (v.map pyBool) evalBool = some v := by
+  cases v <;> simp [kwOptV, evalBool_pyBool]
+@[simp] theorem kwOptV_bool_some (b : Bool) : kwOptV (some (pyBool b)) evalBool = some (some b) := by
+  simp [kwOptV, evalBool_pyBool]
+@[simp] theorem kwOptV_str_some (s : Str) : kwOptV (some (PyAst.str s)) evalStr = some (some s) := by
+  simp [kwOptV, evalStr]
+@[simp] theorem kwOptV_optStr (cm : Option Str) : kwOptV (some (optStr cm)) evalOptStr = some (some cm) := by
+  simp [kwOptV, evalOptStr_optStr]
+
+
+theorem truthy_idem (s : Option Str) : truthy (truthy s) = truthy s := by
+  cases s with
+  | none => rfl
+  | some l => cases l <;> rfl
+
+theorem evalCol_renderCol (c : Ctx) (col : Col) (hf : kwFresh colKnown col.kwargs = true) :
+    evalCol c (renderCol c col) = some (normCol col) := by
+  obtain ⟨name, ty, sd, sp, ai, nu, sy, cm, kws⟩ := col
+  have hk := fun n hn => kwArg_kwItems n kws _ hf hn
+  have hf2 : kwFresh [S "server_default", S "autoincrement", S "nullable", S "system", S "comment"] kws = true := hf
+  simp only [renderCol, evalCol, ↓reduceIte, normCol]
+  cases sd <;> cases sp <;> cases sy <;>
+    simp +decide [kwOpt, kwOptV, posArgs_append, posArgs, kwArg_append, kwArg, kwArg_optItem, pos, kw, colKnown,
+      otherKw_append, otherKw, otherKw_optItem, otherKw_kwItems _ _ hf2, hk, evalBool_pyBool] <;>
+    cases nu <;> cases truthy cm <;> cases ai <;> simp [evalStr, evalBool_pyBool]
+
+theorem eval_addColumn (ec : ECtx) (table : Str) (schema : Option Str) (col : Col)
+    (hf : kwFresh colKnown col.kwargs = true) :
+    evalCall ec (renderOp ec.c (.addColumn table schema col)) = some (normalize ec (.addColumn table schema col)) := by
+  have hc := evalCol_renderCol ec.c col hf
+  simp only [renderOp, normalize]
+  cases hb : ec.c.batch <;> simp only [↓reduceIte, Bool.false_eq_true, evalCall, stripPrefix_append, dir_addColumn]
+  · simp +decide [evalAddColumn, hb, kwOpt, kwOptV, posArgs_append, posArgs, kwArg_append, kwArg, kwArg_optItem, pos, schemaKw, hc]
+    cases truthy schema <;> simp [evalStr]
+  · simp [evalAddColumn, hb, posArgs, pos, hc]
+
+theorem eval_alterColumn (ec : ECtx) (a : Alter)
+    (hs : sdOk a = true) :
+    evalCall ec (renderOp ec.c (.alterColumn a)) = some (normalize ec (.alterColumn a)) := by
+  obtain ⟨table, column, schema, et, sd, nn, ty, nu, cm, exc, en, ai, esd⟩ := a
+  simp only [renderOp, normalize]
+  have hsd : ∀ d, sd = some (some d) → isPyNone d = false := by
+    intro d e; subst e; simpa [sdOk] using hs
+  cases hb : ec.c.batch <;> simp only [↓reduceIte, Bool.false_eq_true, evalCall, stripPrefix_append, dir_alterColumn]
+  all_goals
+    rcases sd with _ | _ | d <;> rcases cm with _ | cm <;> cases nu <;>
+    simp +decide [evalAlterColumn, hb, kwOpt, posArgs_append, posArgs, kwArg_append, kwArg, kwArg_optItem, pos, kw, schemaKw,
+      isPyNone_pyNone, hsd]
+
+/-- the evaluation round trip for every modelled directive except `create_table` -/
+theorem evalCall_renderOp (ec : ECtx) (o : Op) (h : evalOk o = true) :
+    evalCall ec (renderOp ec.c o) = some (normalize ec o) := by
+  cases o with
+  | createTable n s cols cons cm kws ine => simp [evalOk] at h
+  | dropTable n s ie => exact eval_dropTable ec n s ie
+  | addColumn t s col => exact eval_addColumn ec t s col (by simpa [evalOk] using h)
+  | dropColumn t s col => exact eval_dropColumn ec t s col
+  | alterColumn a => exact eval_alterColumn ec a (by simpa [evalOk] using h)
+  | createIndex n t s e u kws ine =>
+    simp only [evalOk, Bool.and_eq_true] at h
+    exact eval_createIndex ec n t s e u kws ine h.1 h.2
+  | dropIndex n t s kws ie => exact eval_dropIndex ec n t s kws ie (by simpa [evalOk] using h)
+  | createUnique n t s cols d i kws => exact eval_createUnique ec n t s cols d i kws (by simpa [evalOk] using h)
+  | createFK n src ref l r k => exact eval_createFK ec n src ref l r k
+  | dropConstraint n t s ty => exact eval_dropConstraint ec n t s ty
+  | createTableComment t cm ex s => exact eval_createTableComment ec t cm ex s
+  | dropTableComment t ex s => exact eval_dropTableComment ec t ex s
 
 end Model.Render
